@@ -3,7 +3,7 @@
    Model: Model/DataSet.v (value semantics of sparseSpACE/DEMachineLearning.py class DataSet, exact rationals). *)
 From Coq Require Import ZArith List QArith Qcanon Bool Permutation.
 From SG Require Import Base.QcUtil Model.DataSet Proofs.DataSetVec Proofs.DataSetScale Proofs.DataSetRevert Proofs.DataSetMove
-  Proofs.DataSetRevertPerm.
+  Proofs.DataSetRevertPerm Proofs.DataSetWitness.
 Import ListNotations.
 Open Scope Qc_scope.
 
@@ -111,8 +111,6 @@ Theorem C18_concatenate_ignores_other_scaling : forall v a b b',
   rows b = rows b' -> ddim b = ddim b' -> flat b = flat b' -> concatenate v a b = concatenate v a b'.
 Proof. exact concatenate_ignores_other_scaling. Qed.
 
-Definition wit_a : ds := fst (scale_range 0 1 false (fresh [([0; 1], 0%Z); ([Qc2; Qc2 + Qc2 + 1], 1%Z)])).
-Definition wit_b : ds := fresh [([1; 1], 1%Z)].
 Theorem C18_concatenate_refuses_different_scaling_refuted : forall v,
   rows wit_a <> [] /\ rows wit_b <> [] /\ same_scaling v wit_a wit_b = Some false /\
   exists r, concatenate v wit_a wit_b = CNew r /\ attrs r = attrs wit_a /\ length (rows r) = 3%nat.
@@ -126,7 +124,6 @@ Print Assumptions C18_concatenate_refuses_different_scaling_refuted.
 (* ---- revert on a data set whose membership changed since the scaling: FALSE for the faithful model -------------
    full statement that fails: revert_scaling restores every split piece / every set after remove_samples.
    revert re-aligns by the CURRENT minimum; witness: scale 4 samples to (0,1), split in halves, revert the second half. *)
-Definition wit_d0 : ds := fresh [([0; 1], 0%Z); ([Qc2; Qc2 + Qc2 + 1], 1%Z); ([Qc2 + Qc2; Qc2 + 1], 0%Z); ([1; Qc2], 1%Z)].
 Theorem C18_revert_after_split_refuted :
   exists d1 a b b', scale_range 0 1 false wit_d0 = (d1, false) /\ split_pieces Qchalf d1 = (a, b) /\
     revert_scaling b = (b', false) /\ rows b' <> skipn 2 (rows wit_d0).
@@ -144,7 +141,6 @@ Proof.
   intro P. apply Permutation_length in P. vm_compute in P. discriminate.
 Qed.
 (* ---- same_scaling on 1-dimensional factor/shift-scaled data raises (code as found); remove_samples then raises AFTER deleting *)
-Definition wit_1d : ds := fst (shift_value (AScalar 1) false (fresh [([0], 0%Z); ([1], 1%Z); ([Qc2], 0%Z); ([Qc2 + 1], 1%Z)])).
 Theorem C18_remove_samples_loses_samples_refuted :
   same_scaling as_found wit_1d wit_1d = None /\
   exists d', remove_samples as_found [0%Z; 2%Z] wit_1d = (d', None) /\ length (rows d') = 2%nat /\
